@@ -40,14 +40,14 @@ NoBlob == -1
 \* chunks  : set of [off, len, done] append writes
 \* synced  : the `synced_size` counter
 \* dur     : length of the prefix that is durable (survives power loss)
-\* pend    : set of [seen, upto]: syncs in flight (size read at begin, contiguous
+\* pend    : sequence of [seen, upto]: syncs in flight (size read at begin, contiguous
 \*           completed prefix when sync_all was called; 0 before that)
 \* acked   : end offset of the last record the storage indexed in this blob
 \* written : index files: the header carries the `written` bit
 \* descr   : index files: blob size recorded in the header
 NewFile(kind, id, loc, len) ==
   [kind |-> kind, id |-> id, loc |-> loc, size |-> len, chunks |-> {}, synced |-> len, dur |-> len,
-   pend |-> {}, acked |-> 0, written |-> FALSE, descr |-> 0, base |-> len]
+   pend |-> <<>>, acked |-> 0, written |-> FALSE, descr |-> 0, base |-> len]
 
 Exists(f) == f \in DOMAIN file
 IsBlob(f) == Exists(f) /\ file[f].kind = "blob"
@@ -115,25 +115,31 @@ WriteAt(f, off, len, written, descr) ==
   /\ file' = IF off = 0 THEN [file EXCEPT ![f].written = written, ![f].descr = descr] ELSE file
   /\ UNCHANGED <<everBlob, active, limit, api, strict>>
 
+\* syncs in flight are kept in a sequence: two concurrent syncs may have read the same size
+PendIdx(f, seen, called) ==
+  LET c == {i \in DOMAIN file[f].pend : file[f].pend[i].seen = seen /\ (file[f].pend[i].upto # 0) = called}
+  IN  IF c = {} THEN 0 ELSE CHOOSE i \in c : \A j \in c : i <= j
+RemoveAt(s, i) == [j \in 1..(Len(s) - 1) |-> IF j < i THEN s[j] ELSE s[j + 1]]
+
 SyncBegin(f, seen) ==
   /\ Exists(f)
-  /\ file' = [file EXCEPT ![f].pend = @ \cup {[seen |-> seen, upto |-> 0]}]
+  /\ file' = [file EXCEPT ![f].pend = Append(@, [seen |-> seen, upto |-> 0])]
   /\ UNCHANGED <<everBlob, active, limit, api, strict>>
 
 \* sync_all is called: everything completed up to now will be durable
 SyncCall(f, seen) ==
-  /\ Exists(f) /\ \E p \in file[f].pend : p.seen = seen /\ p.upto = 0
-  /\ LET p == CHOOSE p \in file[f].pend : p.seen = seen /\ p.upto = 0
-         u == Contig(f)
-     IN  file' = [file EXCEPT ![f].pend = (@ \ {p}) \cup {[seen |-> seen, upto |-> u + 1]}]   \* + 1: 0 means "not called yet"
+  /\ Exists(f) /\ PendIdx(f, seen, FALSE) # 0
+  /\ LET i == PendIdx(f, seen, FALSE) IN
+     file' = [file EXCEPT ![f].pend[i].upto = Contig(f) + 1]   \* + 1: 0 means "not called yet"
   /\ UNCHANGED <<everBlob, active, limit, api, strict>>
 
 SyncEnd(f, seen) ==
-  /\ Exists(f) /\ \E p \in file[f].pend : p.seen = seen /\ p.upto # 0
-  /\ LET p == CHOOSE p \in file[f].pend : p.seen = seen /\ p.upto # 0 IN
-     file' = [file EXCEPT ![f].pend = @ \ {p},
-                          ![f].dur = IF p.upto - 1 > @ THEN p.upto - 1 ELSE @,
-                          ![f].synced = IF seen > @ THEN seen ELSE @]
+  /\ Exists(f) /\ PendIdx(f, seen, TRUE) # 0
+  /\ LET i == PendIdx(f, seen, TRUE)
+         u == file[f].pend[i].upto - 1
+     IN  file' = [file EXCEPT ![f].pend = RemoveAt(@, i),
+                              ![f].dur = IF u > @ THEN u ELSE @,
+                              ![f].synced = IF seen > @ THEN seen ELSE @]
   /\ UNCHANGED <<everBlob, active, limit, api, strict>>
 
 \* index re-creation: only index files may be truncated (C07)
